@@ -7,6 +7,7 @@ import NdcubeModel.Model.Wrappers
 import NdcubeModel.Model.Table
 import NdcubeModel.Model.Fits
 import NdcubeModel.Model.Uncert
+import NdcubeModel.Model.Coords
 
 /-!
 # Line-protocol driver
@@ -522,6 +523,33 @@ def opUncert (j : Json) : R Json := do
   pure <| Json.mkObj [("outcome", .str tag), ("flatShape", listJson natJson flatShape),
     ("variances", listJson (optJson ratJson) values)]
 
+/-! ## axis_world_coords (C05) -/
+
+def opWorldCoords (j : Json) : R Json := do
+  let shape ← field j "shape" >>= asList asNat                 -- cube array shape
+  let w ← field j "wcs" >>= asWcs
+  let corners ← field j "corners" >>= asBool
+  let mapping ← match optField j "mapping" with
+    | none => pure none
+    | some m => (asList asNat m).map some
+  let probes ← field j "probes" >>= asList (asList (asList asNat))   -- per world axis: element indices
+  let groups := splitMatrix w.corr w.pixDim
+  let nd := shape.length
+  let perWorld := (List.range w.worldDim).map fun i =>
+    let axes := coordArrayAxes w.corr w.pixDim nd mapping i
+    let shp := axes.map fun ax => shape.getD ax 0 + (if corners then 1 else 0)
+    let elems := (probes.getD i []).map fun a =>
+      symJson ((w.p2w (gridPixel w.corr w.pixDim groups corners i a)).getD i (i, []))
+    Json.mkObj [("axes", listJson natJson axes), ("shape", listJson natJson shp), ("at", Json.arr elems.toArray)]
+  let sel ← match optField j "axes" with
+    | none => pure Json.null
+    | some a => do
+      let ints ← asList asInt a
+      pure (exceptJson (listJson natJson) (worldIndicesInts w.corr w.pixDim w.worldDim nd mapping ints))
+  pure <| Json.mkObj [("groups", listJson (fun (g : List Nat × List Nat) =>
+      Json.arr #[listJson natJson g.1, listJson natJson g.2]) groups),
+    ("world", Json.arr perWorld.toArray), ("selection", sel)]
+
 def dispatch (j : Json) : R Json := do
   let op ← field j "op" >>= asStr
   match op with
@@ -539,6 +567,7 @@ def dispatch (j : Json) : R Json := do
   | "table" => opTable j
   | "unwrap" => opUnwrap j
   | "uncert" => opUncert j
+  | "world_coords" => opWorldCoords j
   | _ => .error s!"unknown op {op}"
 
 def handleLine (line : String) : String :=
